@@ -207,8 +207,8 @@ def _stream_worker(a):
         bp = a["plain"]
         if seed % 2:
             # class rules whose settings are unusual but legal: blank and odd address values, empty strings, every criterion at once
-            odd = [{"name": "r%d" % k_, "class": "c%d" % k_, "address": v_} for k_, v_ in enumerate(rng.sample(
-                [" ", "", "*", "10.*", "10.0.0.0/0", "2001:db8::/128", "0::/0", "1.2.3.4/32", "  ", "10.1/16", "::ffff:1.2.3.4/100", "bogus", "1.2.3.4/", "/8"], 5))]
+            odd = [{"name": "r%d" % k_, "class": "c%d" % k_, "address": v_} for k_, v_ in enumerate([rng.choice([" ", "  ", "\t"])] + rng.sample(
+                ["", "*", "10.*", "10.0.0.0/0", "2001:db8::/128", "0::/0", "1.2.3.4/32", "10.1/16", "::ffff:1.2.3.4/100", "bogus", "1.2.3.4/", "/8"], 4))]
             odd.append({"name": "zz", "account": "", "username": "", "hostname": "", "xreply_ok": "", "trust_username": "maybe"})
             cfg = proto.Config(cfg.services, timeout=cfg.timeout, rules=odd, use_class=True)
         conf = cfg.text(bp["moddir"])
